@@ -382,7 +382,7 @@ PROPS['C04'] = dict(
         dict(name='pipelab', bin='pipelab', variant='asan', mode='c04',
              quick=300000, thorough=6000000,
              require=['c04.negotiations', 'c04.inputs_checked', 'op.sub_alloc',
-                      'op.set_flow_def_bad']),
+                      'op.set_flow_def_bad', 'subpipe.cases', 'op.super_released_before_subs']),
     ],
 )
 
